@@ -42,7 +42,7 @@ class SymSeq:
 def symseq_getitem(interp, s, key):
     c = ctx()
     if isinstance(key, PSlice):
-        if key.step is not None and key.step != 1:
+        if not step_is_one(key.step):
             raise Unsupported('symseq step')
         lo, hi = sym.slice_bounds(key.start, key.stop, s.length)
         return SymSeq(i_sub(hi, lo), (lambda i, lo=lo: s.elem(i_add(lo, i))), s.kind, s.tag)
@@ -297,8 +297,17 @@ def _concrete_bound(v, n):
     raise Infeasible()
 
 
+def step_is_one(step):
+    """True when a slice step is None or (on this path) equal to 1"""
+    if step is None:
+        return True
+    if is_z3(step):
+        return ctx().truth(i_cmp('==', step, 1))
+    return step == 1
+
+
 def _slice_concrete(key, n):
-    if key.step is not None and key.step != 1:
+    if not step_is_one(key.step):
         if not is_z3(key.step) and not is_z3(key.start) and not is_z3(key.stop):
             return None
         raise Unsupported('symbolic slice step')
